@@ -58,6 +58,24 @@ class C17(ProgProp):
             extra = list((got - want).elements())[:3]
             res.fail("C17|listing|exception-table-rows", "ExceptionTable rows differ from CPython's entries: missing %s, unexpected %s" % (miss, extra))
         res.classes.append("listing-exception-rows:%d" % min(sum(want.values()), 3))
+        # the same file decoded by xdis running under `python -O` (assert statements stripped): same tables
+        if not res.failures and sum(bytearray(rw.unhx(ref["payload"])[:64])) % 4 == 0:
+            import json
+            from vf import progdiff as pd
+            data = rw.unhx(ref["header"]) + rw.unhx(ref["payload"])
+            plain, perr = pd.xdis_dump(data, 0)
+            r = ctx.pool.get("3.12", "host", "optimize").call_raw("x_dump", data=rw.hx(data), route="portable", max_code=0)
+            res.classes.append("python -O host")
+            if perr is None:
+                if not r["ok"]:
+                    res.fail("C17|python-O|raised|%s" % r["err"].split(":")[0], "under python -O decoding raised %s" % r["err"][:200])
+                else:
+                    for i_, (a_, b_) in enumerate(zip(plain["dis"], r["r"]["dis"])):
+                        for key in ("positions", "positions_pp", "co_lines", "exc_parsed", "linestarts", "positions_err", "positions_pp_err", "co_lines_err"):
+                            if json.dumps(a_.get(key)) != json.dumps(b_.get(key)):
+                                res.fail("C17|python-O|%s" % key, "co%d: %s differs when xdis runs under python -O: %s vs %s" % (
+                                    i_, key, json.dumps(b_.get(key))[:120], json.dumps(a_.get(key))[:120]))
+                                break
         return res
 
     def classify(self, case, ref, x, c, res):
